@@ -11,7 +11,8 @@ checks, na = [], []
 for pr in props:
     pid = pr["id"]
     cp = os.path.join(V, "harness", pid.lower(), "check.json")
-    if not os.path.exists(cp) or json.load(open(cp)).get("disabled"):
+    enabled = open(os.path.join(V, "tools", "enabled.txt")).read().split()
+    if not os.path.exists(cp) or json.load(open(cp)).get("disabled") or pid not in enabled:
         na.append({"property_id": pid, "reason": na_reasons.get(pid, "check not built yet (work in progress; see DESIGN.md section 4 for the plan)")})
         continue
     c = json.load(open(cp))
